@@ -30,3 +30,10 @@ Print Assumptions C12_waitgroup_protocol.
 Theorem C12_waitgroup_nonnegative : forall s, reachable true s -> (0 <= wg s)%Z.
 Proof. exact waitgroup_nonnegative. Qed.
 Print Assumptions C12_waitgroup_nonnegative.
+
+(* objects the caller hands to the library and may share (a *tls.Config used by several Clients, a *log.Logger): no method
+   of Server or Client assigns through a pointer held in one of its fields, nor through a local copy of such a pointer -
+   they are only read, cloned or called (complete enumeration of the regenerated list) *)
+Theorem C12_caller_objects_not_written : gen_deep_writes = [].
+Proof. reflexivity. Qed.
+Print Assumptions C12_caller_objects_not_written.
